@@ -17,6 +17,7 @@ def run(tier, replay=None):
         ("lz2-empty", "lzma2", 2, [], dict(), "tour"),
         ("lz2-1w", "lzma2", 1, ["I", "I", "I"], dict(), "tour"),
         ("lz2-3w-4u", "lzma2", 3, ["I", "I", "D", "I"], dict(), "rand"),
+        ("lz2-props-reset", "lzma2", 2, ["I", "P", "I", "U", "D"], dict(), "rand"),
         ("lz2-preset", "lzma2", 2, ["I", "D", "I"], dict(extra=dict(preset=True)), "rand"),
         ("lz2-unc-trailing", "lzma2", 2, ["I", "I", "D"], dict(extra=dict(unc=[1], trailing=9)), "rand"),
         ("lz2-text-1k", "lzma2", 2, ["I", "I", "I"], dict(extra=dict(data_class="text", unit_len=1500)), "rand"),
